@@ -1,13 +1,219 @@
 package main
 
-import "fmt"
+import (
+	"bytes"
+	"encoding/json"
+	"flag"
+	"fmt"
+	"os"
+	"os/exec"
+	"path/filepath"
+	"regexp"
+	"strings"
+	"sync"
+	"time"
+)
 
-func selftestDeterminism(args []string) int {
-	fmt.Println("not built yet")
-	return 2
+// mutant is a deliberate property-breaking change applied to a scratch copy of
+// the library (never to /repo).
+type mutant struct {
+	ID       string `json:"id"`
+	Property string `json:"property"`
+	File     string `json:"file"`
+	Find     string `json:"find"`
+	Replace  string `json:"replace"`
+	Note     string `json:"note"`
+	Patch    string `json:"patch,omitempty"` // alternatively: a unified diff under /verif (seeded/<id>/patch.diff)
 }
 
+func loadMutants() []mutant {
+	raw, err := os.ReadFile(filepath.Join(verifDir, "mutants.json"))
+	if err != nil {
+		fatal2("mutants.json: %v", err)
+	}
+	var m struct {
+		Mutants []mutant `json:"mutants"`
+	}
+	if err := json.Unmarshal(raw, &m); err != nil {
+		fatal2("mutants.json: %v", err)
+	}
+	return m.Mutants
+}
+
+// mutantCopy creates a scratch copy of /repo (without .git) carrying the change.
+func mutantCopy(m mutant) (string, error) {
+	base := "/dev/shm"
+	if fi, err := os.Stat(base); err != nil || !fi.IsDir() {
+		base = os.TempDir()
+	}
+	dir, err := os.MkdirTemp(base, "verif.mut.")
+	if err != nil {
+		return "", err
+	}
+	ents, _ := os.ReadDir("/repo")
+	for _, e := range ents {
+		if e.Name() == ".git" {
+			continue
+		}
+		src := filepath.Join("/repo", e.Name())
+		dst := filepath.Join(dir, e.Name())
+		if e.IsDir() {
+			if err := copyTree(src, dst); err != nil {
+				return dir, err
+			}
+		} else if err := copyFile(src, dst); err != nil {
+			return dir, err
+		}
+	}
+	if m.Patch != "" {
+		c := exec.Command("patch", "-p1", "-s", "-i", filepath.Join(verifDir, m.Patch))
+		c.Dir = dir
+		if out, err := c.CombinedOutput(); err != nil {
+			return dir, fmt.Errorf("patch failed: %v: %s", err, out)
+		}
+		return dir, nil
+	}
+	p := filepath.Join(dir, m.File)
+	raw, err := os.ReadFile(p)
+	if err != nil {
+		return dir, err
+	}
+	if n := strings.Count(string(raw), m.Find); n != 1 {
+		return dir, fmt.Errorf("mutant %s: pattern occurs %d times in %s (want exactly 1)", m.ID, n, m.File)
+	}
+	return dir, os.WriteFile(p, []byte(strings.Replace(string(raw), m.Find, m.Replace, 1)), 0o644)
+}
+
+var reViolLine = regexp.MustCompile(`(?m)^VIOLATION property=(\S+) replay=(\S+)`)
+
+// selftestSensitivity breaks each claimed property on purpose in a scratch
+// copy and requires the quick check to report it with a replay that
+// reproduces (DESIGN.md §2.8). Exit 0 iff every mutant is killed.
 func selftestSensitivity(args []string) int {
+	fs := flag.NewFlagSet("selftest-sensitivity", flag.ExitOnError)
+	props := fs.String("props", "", "comma-separated property ids (default: all)")
+	only := fs.String("only", "", "comma-separated mutant ids")
+	tier := fs.String("tier", "quick", "tier to run")
+	par := fs.Int("par", 2, "mutants checked concurrently")
+	fs.Parse(args)
+	muts := loadMutants()
+	self, _ := os.Executable()
+	type result struct {
+		Mutant    mutant   `json:"mutant"`
+		Killed    bool     `json:"killed"`
+		Replayed  bool     `json:"replay_reproduces"`
+		Classes   []string `json:"classes,omitempty"`
+		Exit      int      `json:"check_exit"`
+		WallS     float64  `json:"wall_s"`
+		Error     string   `json:"error,omitempty"`
+		BuildFail bool     `json:"build_failed,omitempty"`
+	}
+	var sel []mutant
+	for _, m := range muts {
+		if *props != "" && !strings.Contains(","+*props+",", ","+m.Property+",") {
+			continue
+		}
+		if *only != "" && !strings.Contains(","+*only+",", ","+m.ID+",") {
+			continue
+		}
+		sel = append(sel, m)
+	}
+	results := make([]result, len(sel))
+	sem := make(chan struct{}, *par)
+	var wg sync.WaitGroup
+	for i, m := range sel {
+		wg.Add(1)
+		go func(i int, m mutant) {
+			defer wg.Done()
+			sem <- struct{}{}
+			defer func() { <-sem }()
+			t0 := time.Now()
+			r := result{Mutant: m}
+			dir, err := mutantCopy(m)
+			if dir != "" {
+				defer os.RemoveAll(dir)
+			}
+			if err != nil {
+				r.Error = err.Error()
+				results[i] = r
+				return
+			}
+			out, err := os.MkdirTemp(filepath.Dir(dir), "verif.mutout.")
+			if err != nil {
+				r.Error = err.Error()
+				results[i] = r
+				return
+			}
+			defer os.RemoveAll(out)
+			cmd := exec.Command(self, "check", m.Property, "--tier", *tier)
+			cmd.Env = append(os.Environ(), "VERIF_REPO="+dir, "VERIF_OUTDIR="+out)
+			var ob bytes.Buffer
+			cmd.Stdout, cmd.Stderr = &ob, &ob
+			err = cmd.Run()
+			r.Exit = 0
+			if ee, ok := err.(*exec.ExitError); ok {
+				r.Exit = ee.ExitCode()
+			}
+			ms := reViolLine.FindAllStringSubmatch(ob.String(), -1)
+			r.Killed = r.Exit == 1 && len(ms) > 0
+			if r.Exit == 2 {
+				r.Error = tailStr(ob.String(), 1500)
+				r.BuildFail = strings.Contains(ob.String(), "building sim")
+			}
+			for _, mm := range ms {
+				raw, err := os.ReadFile(mm[2])
+				if err == nil {
+					var x struct {
+						Class string `json:"class"`
+					}
+					json.Unmarshal(raw, &x)
+					r.Classes = append(r.Classes, x.Class)
+				}
+			}
+			if r.Killed {
+				// the minimised replay must reproduce against the same mutant in a fresh process
+				rc := exec.Command(self, "replay", ms[0][2])
+				rc.Env = append(os.Environ(), "VERIF_REPO="+dir, "VERIF_OUTDIR="+out)
+				rerr := rc.Run()
+				if ee, ok := rerr.(*exec.ExitError); ok && ee.ExitCode() == 1 {
+					r.Replayed = true
+				}
+			}
+			r.WallS = time.Since(t0).Seconds()
+			results[i] = r
+		}(i, m)
+	}
+	wg.Wait()
+	killed, total := 0, 0
+	for _, r := range results {
+		total++
+		status := "MISSED"
+		if r.Killed && r.Replayed {
+			killed++
+			status = "killed"
+		} else if r.Killed {
+			status = "killed-but-replay-failed"
+		} else if r.Error != "" {
+			status = "error"
+		}
+		fmt.Printf("%-34s %-4s %-26s exit=%d %.0fs %s\n", r.Mutant.ID, r.Mutant.Property, status, r.Exit, r.WallS, strings.Join(r.Classes, ","))
+		if r.Error != "" {
+			fmt.Printf("    %s\n", strings.ReplaceAll(r.Error, "\n", "\n    "))
+		}
+	}
+	fmt.Printf("sensitivity: %d/%d mutants killed with reproducing replays\n", killed, total)
+	if *props == "" && *only == "" {
+		raw, _ := json.MarshalIndent(map[string]any{"tier": *tier, "killed": killed, "total": total, "results": results}, "", " ")
+		os.MkdirAll(filepath.Join(outDir, "evidence"), 0o755)
+		os.WriteFile(filepath.Join(outDir, "evidence", "sensitivity.json"), raw, 0o644)
+	}
+	if killed != total {
+		return 1
+	}
+	return 0
+}
+
+func selftestDeterminism(args []string) int {
 	fmt.Println("not built yet")
 	return 2
 }
